@@ -14,7 +14,7 @@ R5 files whole / lock covers: C07-R2,R3 and C02-R2,R3 (run here as well).
 """
 import re
 from .. import cfg
-from ..common import (trace_bool, bool_switch_targets, enum_switch, ty_variants, single_def,
+from ..common import (return_values_r, trace_bool, bool_switch_targets, enum_switch, ty_variants, single_def,
                       return_values, field_switches, dominated_region)
 from ..facts import op_place, op_const, rv_str
 from ..prov import Prov
@@ -311,8 +311,8 @@ def rule_interrupted_nonzero(ctx, facts):
                     if 0 not in arms and 1 in arms:
                         none_arm = otherwise
                     found = True
-                    region = cfg.reach(b, [none_arm])
-                    rets = [(rb, st) for (rb, st) in return_values(b) if rb in region]
+                    region = cfg.reach_t(b, none_arm)   # variant-tracked: an Err built here and handed on through `?` stays Err
+                    rets = [(rb, st) for (rb, st) in return_values_r(b) if rb in region]
                     good = rets and all(is_err_agg(st) for _, st in rets)
                     ctx.check(bool(good), "C18-R4", "none-arm|" + key,
                               "`None` (stopped) from the pass reaches only Err returns (%s)" % (", ".join(rv_str(st["rv"]) for _, st in rets) or "no return"),
